@@ -51,6 +51,7 @@ pub struct Stats {
     pub kept_under_lookahead: u32,
     pub custom_consumed_then_failed: u32,
     pub empty_matches: u32,
+    pub empty_matches_between_tokens: u32,
     pub recoveries_fired: u32,
     pub recoveries_abandoned: u32,
     pub recoveries_failed: u32,
@@ -88,6 +89,8 @@ pub struct RefOpts {
     pub observed: bool,
     /// every node's output is wrapped in the user state observed when it finished (C18)
     pub obs_state: bool,
+    /// try_map / try_map_with / validate / select closures also record the span they are given (C07)
+    pub cap_spans: bool,
     /// V-lead variant: leading separator with zero items is left unconsumed even with allow_trailing
     pub vlead_alt: bool,
     /// V-trail-cap variant: trailing separator consumed after exactly at_most items
@@ -331,6 +334,9 @@ impl<'a> Rf<'a> {
             Ok((v, e)) => {
                 if e == pos {
                     self.stats.empty_matches += 1;
+                    if pos > 0 && pos < self.toks.len() {
+                        self.stats.empty_matches_between_tokens += 1;
+                    }
                 }
                 let v = if self.opts.observed {
                     let id = self.ids[&(g as *const G)];
@@ -462,6 +468,9 @@ impl<'a> Rf<'a> {
                         // the closure of select! runs after its token was taken
                         let st = self.state_at(env, pos + 1);
                         return Ok((Val::St(st.n, st.h, Box::new(Val::Tok(c))), pos + 1));
+                    }
+                    if self.opts.cap_spans {
+                        return Ok((Val::pair(Val::Span(pos, pos + 1), Val::Tok(c)), pos + 1));
                     }
                     Ok((Val::Tok(c), pos + 1))
                 }
@@ -630,7 +639,8 @@ impl<'a> Rf<'a> {
                             if let Some(i) = inner {
                                 self.add(i)
                             }
-                            Ok((Val::mark(*t, v), e))
+                            let m = Val::mark(*t, v);
+                            Ok((if self.opts.cap_spans { Val::pair(Val::Span(pos, e), m) } else { m }, e))
                         } else {
                             self.stats.semantic_rejects += 1;
                             if inner.is_some() {
@@ -646,7 +656,8 @@ impl<'a> Rf<'a> {
                 let had = self.stats.events;
                 let (v, e) = self.ev(a, pos, env)?;
                 if p.test(&v) {
-                    Ok((Val::mark(*t, v), e))
+                    let m = Val::mark(*t, v);
+                    Ok((if self.opts.cap_spans { Val::pair(Val::Span(pos, e), m) } else { m }, e))
                 } else {
                     self.stats.semantic_rejects += 1;
                     if self.stats.events > had {
@@ -684,7 +695,7 @@ impl<'a> Rf<'a> {
                 for i in 0..*k {
                     self.emitted.push(Emis { kind: EmisKind::Validate(*t, i), span: (pos, e), at: pos, ctx: vec![] });
                 }
-                Ok((v, e))
+                Ok((if self.opts.cap_spans { Val::pair(Val::Span(pos, e), v) } else { v }, e))
             }
             Recover(a, s) => self.recover(a, s, pos, env),
             Labelled(a, l, as_ctx) => {
